@@ -152,6 +152,40 @@ def t_mvn_reparam(E):
     E.refutable("adev.mv_normal_reparam", E.eq(ps[1], cov))
 
 
+def _jvp_wiring(name, cls, n_params, noise_position):
+    """reparameterised primitives that differentiate a closure with jax.jvp: the closure must be differentiated AT the parameter
+    primals WITH the parameter tangents of the dual tree (in the same order), and the result is the (primal, tangent) pair
+    jax.jvp returns.  jax.jvp itself is external (A7)."""
+    @task(f"adev.{name}", props=["C29"], functions=[P + f":{cls}.before_tail_call"])
+    def t(E):
+        z3 = E.z3
+        k = key(E)
+        seen = {}
+        po, to = E.opaque("jvp_primal_out", "array"), E.opaque("jvp_tangent_out", "array")
+
+        def fake_jvp(I, f, primals, tangents):
+            seen["f"], seen["primals"], seen["tangents"] = f, list(I.iterate(primals)), list(I.iterate(tangents))
+            return (po, to)
+        E.I.ext["jax.jvp"] = fake_jvp
+        ps_in = [E.opaque(f"param{j}", "array") for j in range(n_params)]
+        ts_in = [E.opaque(f"dparam{j}", "array") for j in range(n_params)]
+        prim = E.new(P + ":" + cls)
+        st, d = E.attempt(lambda: E.method(prim, "before_tail_call", k, tuple(dual(E, p_, t_) for p_, t_ in zip(ps_in, ts_in))))
+        E.require(f"C29.{cls}.before_tail_call.differentiates_through_jax_jvp", st == "ok" and "tangents" in seen, raised=str(d))
+        ps, ts = seen["primals"], seen["tangents"]
+        E.require(f"C29.{cls}.before_tail_call.jvp_over_the_parameters", len(ps) == n_params and len(ts) == n_params)
+        E.prove(f"C29.{cls}.before_tail_call.primals_are_the_parameter_primals", E.And(*[E.eq(a, b) for a, b in zip(ps, ps_in)]))
+        E.prove(f"C29.{cls}.before_tail_call.tangents_are_the_parameter_tangents", E.And(*[E.eq(a, b) for a, b in zip(ts, ts_in)]))
+        E.prove(f"C29.{cls}.before_tail_call.returns_the_dual_jax_jvp_computed", E.And(
+            is_obj(d, "Dual"), E.eq(d.fields["primal"], po), E.eq(d.fields["tangent"], to)))
+        E.refutable(f"adev.{name}", E.eq(ps[0], ts_in[0]))
+    return t
+
+
+_jvp_wiring("mv_normal_diag_reparam", "MvNormalDiagREPARAM", 2, None)
+_jvp_wiring("beta_implicit", "BetaIMPLICIT", 2, None)
+
+
 @task("adev.baseline_addcost", props=["C29"], functions=[P + ":Baseline.jvp_estimate", P + ":AddCost.jvp_estimate", P + ":baseline"])
 def t_baseline(E):
     z3 = E.z3
